@@ -17,13 +17,22 @@ SRC = 'C02/h_sem.cpp'
 def jobs(tier):
     q = tier == 'quick'
     J = []
+    KF = 'C02-ooo-scan-self-deadlock'
     for inorder in (1, 0):
         tag = 'io' if inorder else 'ooo'
-        J.append(kjob('sem_1w1s_%s' % tag, SRC, 2, 4, ['INORDER=%d' % inorder, 'NSIG=1'], desc='1 waiter, 1 signaller, %s' % tag, timeout=1200, unwind=3, mem_gb=16))
-    # (1 waiter + signaller + interrupter, and 2 waiters + signaller, exist in the harness but ran out of memory at 16-20 GB on Layer B: not registered)
-    J.append(kjob('sem_2w_ghost_nobarge_io', SRC, 2, 4, ['INORDER=1', 'NSIG=1', 'GHOST_WAITER', 'GHOST_FIXED', 'NO_BARGE'], kn=3, desc='1 running waiter (demand 2, deadline never / finite) + 1 constructed sleeping waiter (demand 1) queued behind it, 1 signal of 0..2 tokens, in-order', timeout=1500, unwind=3, mem_gb=16))
-    if os.environ.get('VERIF_EXPERIMENTAL'): J.append(kjob('sem_2w_ghost_io', SRC, 2, 4, ['INORDER=1', 'NSIG=1', 'GHOST_WAITER', 'GHOST_FIXED'], kn=3, desc='1 running waiter + 1 constructed sleeping waiter (queued behind it), 1 signaller that may take a token itself, in-order', timeout=2400, unwind=3, mem_gb=30))
-    # (2 queued waiters + signaller on Layer B: SAT out of memory at 32 GB even with fixed demands; the signal step below covers the 2-waiter resume rules sequentially)
+        J.append(kjob('sem_1w1s_%s' % tag, SRC, 2, 4, ['INORDER=%d' % inorder, 'NSIG=1'], desc='1 waiter, 1 signaller, %s' % tag, timeout=900, unwind=3, mem_gb=8))
+        J.append(kjob('sem_1w1s1i_%s' % tag, SRC, 3, 5, ['INORDER=%d' % inorder, 'NSIG=1'], desc='1 waiter, 1 signaller, 1 interrupter of the waiter, %s' % tag, timeout=900, unwind=3, mem_gb=8))
+        j = kjob('sem_2w1s_%s' % tag, SRC, 3, 6, ['INORDER=%d' % inorder, 'NSIG=1', 'TWO_WAITERS'], desc='2 waiters (demands 1..2, symbolic deadlines), 1 signaller (0..2 tokens), %s' % tag, timeout=900, unwind=4, mem_gb=10)
+        if not inorder: j.kf = KF
+        J.append(j)
+        if not q:
+            j = kjob('sem_2w2s_%s' % tag, SRC, 3, 8, ['INORDER=%d' % inorder, 'NSIG=2', 'TWO_WAITERS'], desc='2 waiters, 2 signals with a yield in between, %s' % tag, timeout=3000, unwind=4, mem_gb=16)
+            if not inorder: j.kf = KF
+            J.append(j)
+    # a second waiter that is pure queue state (thread object KN-1 never runs) behind the running one; the signaller may take a token itself (overtaking the resumed waiter)
+    J.append(kjob('sem_2w_ghost_nobarge_io', SRC, 2, 4, ['INORDER=1', 'NSIG=1', 'GHOST_WAITER', 'GHOST_FIXED', 'NO_BARGE'], kn=3, desc='1 running waiter (demand 2, deadline never / finite) + 1 constructed sleeping waiter (demand 1) queued behind it, 1 signal of 0..2 tokens, in-order', timeout=900, unwind=3, mem_gb=8))
+    J.append(kjob('sem_2w_ghost_io', SRC, 2, 4, ['INORDER=1', 'NSIG=1', 'GHOST_WAITER', 'GHOST_FIXED'], kn=3, desc='the same, and the signaller may take a token itself right after signalling (overtakes the resumed waiter)', timeout=900, unwind=3, mem_gb=8))
+    J.append(kjob('sem_2w_ghost_sym_io', SRC, 2, 5, ['INORDER=1', 'NSIG=1', 'GHOST_WAITER'], kn=3, desc='running waiter and constructed waiter with symbolic demands 1..2, symbolic initial count and deadline, overtaking signaller', timeout=900, unwind=3, mem_gb=10))
     for j in J: j.cbmc += ['-DVERIF_STUCK_IS_LEGAL']
     for inorder in (1, 0):
         J.append(Job('signal_step_%s' % ('io' if inorder else 'ooo'), 'C02/h_step.cpp', 'harness_signal_step', defines=['INORDER=%d' % inorder], clang=_c01.KCLANG,
